@@ -5,7 +5,7 @@ import CstModel.Driver.RedArea
 import CstModel.Driver.TextArea
 import CstModel.Driver.SerdeArea
 import CstModel.Driver.DeriveArea
-import CstModel.Driver.ConcArea
+import CstModel.Driver.DataArea
 open Cst Cst.Drv
 
 def sessionStep (s : DState) : List String → Option (DState × String)
@@ -59,7 +59,10 @@ def stepLine (s : DState) (line : String) : DState × String :=
                   | none =>
                     match concStep s ws with
                     | some r => r
-                    | none => (s, "bad-op")
+                    | none =>
+                      match dataStep s ws with
+                      | some r => r
+                      | none => (s, "bad-op")
 
 partial def loop (h : IO.FS.Stream) (out : IO.FS.Stream) (s : DState) : IO Unit := do
   let line ← h.getLine
